@@ -193,10 +193,14 @@ def build(u):
                 u.take_fn(pc, "<ConnectionLogger as Clone>::clone", make_pub=False, ret="")
             u.take(pc, "TcpConnectionContext", "struct", keep_derive=("Clone",))
             with u.impl_(pc, "TcpConnectionContext"):
-                u.take_fn(pc, "TcpConnectionContext::get_ip_string", external_body=True, contract="""
+                u.take_fn(pc, "TcpConnectionContext::get_ip_string", pre_body="broadcast use axiom_to_string_ipv4;", contract="""
         ensures self.destination_ip matches Some(ip) ==> r@ == ip_string(ip),
 """)
-                u.take_fn(pc, "TcpConnectionContext::log", contract="        ensures *final(self) == *old(self),  // logging only\n", external_body=True)
+                u.take_fn(pc, "TcpConnectionContext::log", contract="""
+        ensures final(self).id == old(self).id, final(self).client_addr == old(self).client_addr, final(self).claims == old(self).claims,
+                final(self).destination_ip == old(self).destination_ip, final(self).destination_port == old(self).destination_port,
+                final(self).sender == old(self).sender,   // logging only: nothing but the logger's queue changes
+""")
                 # THE upstream write primitive of the request path: contract = C01 (+ C05/C14 request leg)
                 u.take_fn(pc, "TcpConnectionContext::send_request", pre_body=SEND_PRE,
                           ghost="Ghost(url): Ghost<hyper::Uri>, Ghost(kk): Ghost<KeyKeeperSharedState>, Ghost(orig): Ghost<FwdSpec>",
